@@ -356,7 +356,41 @@ func runC13(pl *plan.Plan, out *plan.Outcome) {
 		history = append(history, porcupine.Operation{ClientId: client, Input: in, Call: call, Output: o, Return: ret})
 		hmu.Unlock()
 	}
+	// Results of queries are kept and read again later: what a query returned describes the state at
+	// its linearization point and must not change when later operations are applied (a result that
+	// shares storage with the live record is a torn read in waiting, and a data race in the race layer).
+	type heldRes struct {
+		m    map[string]interface{}
+		snap string
+		desc string
+	}
+	held := make([][]heldRes, nt)
+	renderAll := func(m map[string]interface{}) string {
+		ks := make([]string, 0, len(m))
+		for k := range m {
+			ks = append(ks, k)
+		}
+		sort.Strings(ks)
+		var b strings.Builder
+		for _, k := range ks {
+			v, _ := mapStr(m, k)
+			b.WriteString(k + "=" + v + ";")
+		}
+		return b.String()
+	}
+	hold := func(t int, m map[string]interface{}, desc string) {
+		held[t%nt] = append(held[t%nt], heldRes{m, renderAll(m), desc})
+	}
+	recheck := func(t int) {
+		for _, h := range held[t%nt] {
+			if now := renderAll(h.m); now != h.snap {
+				env.Violate("query-result-changed-after-return", "", "%s: the returned record read %q when the query returned and reads %q now", h.desc, firstDiff(h.snap, now), firstDiff(now, h.snap))
+				return
+			}
+		}
+	}
 	doOp := func(t int, op plan.Op) {
+		defer recheck(t)
 		s := sess
 		now := time.Now()
 		call := stamp.Add(1)
@@ -408,6 +442,7 @@ func runC13(pl *plan.Plan, out *plan.Outcome) {
 			if len(recs) > 0 {
 				m := recs[0]
 				o.Snap = takeSnap(func(n string) (string, bool) { return mapStr(m, n) })
+				hold(t, m, fmt.Sprintf("GetRecords(key %d) by task %d", k, t))
 			}
 			record(t, c13Input{Kind: "get", Key: k, Now: now}, call, o)
 		case "getall":
@@ -436,6 +471,7 @@ func runC13(pl *plan.Plan, out *plan.Outcome) {
 					}
 				}
 				o.All = append(o.All, c13Call{Key: k, Snap: takeSnap(func(n string) (string, bool) { return mapStr(m, n) })})
+				hold(t, m, fmt.Sprintf("GetRecords(filter %d) by task %d, record of key %d", filter, t, k))
 			}
 			sort.Slice(o.All, func(i, j int) bool { return o.All[i].Key < o.All[j].Key })
 			env.Count("agg.list_queries", 1)
@@ -560,6 +596,9 @@ func runC13(pl *plan.Plan, out *plan.Outcome) {
 	}
 	if sess == nil {
 		return
+	}
+	for t := 0; t < nt; t++ {
+		recheck(t)
 	}
 	// ---- linearizability (outside the scheduler; porcupine's timeout reads the real clock) ----
 	oraclePhase()
@@ -696,4 +735,18 @@ func runC13Pool(env *Env, s *aggSession, ops []plan.Op, history *[]porcupine.Ope
 			env.Violate("pool-lost-update", "", "key %d after the worker pool: %s", k, d)
 		}
 	}
+}
+
+// firstDiff returns the "name=value;" item of a that is not in b (rendered maps).
+func firstDiff(a, b string) string {
+	have := map[string]bool{}
+	for _, it := range strings.Split(b, ";") {
+		have[it] = true
+	}
+	for _, it := range strings.Split(a, ";") {
+		if it != "" && !have[it] {
+			return it
+		}
+	}
+	return ""
 }
